@@ -12,9 +12,11 @@ VR=${VERIF_ROOT:-/verif}
 export GOFLAGS=-mod=mod GOPROXY=off GOTOOLCHAIN=local
 [ -z "$(git -C "$WT" status --porcelain)" ] || { echo "worktree $WT is not clean"; exit 2; }
 SCR=$(mktemp -d /tmp/seedcheck.XXXXXX)
-sh "$SD/demo.sh" "$WT" >"$SCR/demo_clean.txt" 2>&1; rc_clean=$?
+LR="$WT/xpath/grammars/leafref/leafref.go"   # git-ignored goyacc output: regenerate it from the grammar at hand
+regen() { (cd "$WT/xpath/grammars/leafref" && "$VR/bin/goyacc" -o leafref.go -p leafref leafref.y >/dev/null 2>&1; rm -f y.output); }
+regen; sh "$SD/demo.sh" "$WT" >"$SCR/demo_clean.txt" 2>&1; rc_clean=$?
 git -C "$WT" apply "$SD/patch.diff" || { echo "patch does not apply"; exit 2; }
-sh "$VR/tools/baseline_wt.sh" "$WT" >"$SCR/baseline.txt" 2>&1; rc_base=$?
+regen; sh "$VR/tools/baseline_wt.sh" "$WT" >"$SCR/baseline.txt" 2>&1; rc_base=$?
 sh "$SD/demo.sh" "$WT" >"$SCR/demo_patched.txt" 2>&1; rc_patched=$?
 echo "demo on clean tree: rc=$rc_clean ; baseline with change: $(grep 'baseline tests' "$SCR/baseline.txt") rc=$rc_base ; demo with change: rc=$rc_patched"
 res=""
@@ -25,7 +27,7 @@ for id in "$@"; do
   grep '^VIOLATION\|^INCONCLUSIVE' "$SCR/run-$id.txt" | cut -c1-220 | head -8
   res="$res{\"check\":\"$id\",\"tier\":\"quick\",\"exit\":$rc,\"violation_lines\":$v,\"classes\":$(grep '^VIOLATION' "$SCR/run-$id.txt" | sed 's/.*replay=.*seed[0-9]*-//; s/\.json.*//' | python3 -c 'import sys,json; print(json.dumps([l.strip() for l in sys.stdin][:12]))')},"
 done
-git -C "$WT" checkout -- . ; git -C "$WT" clean -fdq -e xpath/grammars/leafref/leafref.go
+git -C "$WT" checkout -- . ; rm -f "$LR"; git -C "$WT" clean -fdq
 python3 - "$OUT" "$rc_clean" "$rc_base" "$rc_patched" "$(grep 'baseline tests' "$SCR/baseline.txt")" "[${res%,}]" <<'EOF'
 import sys,json
 out,rc_clean,rc_base,rc_patched,base,res=sys.argv[1:7]
